@@ -339,6 +339,17 @@ func (g *gen) step(prop string) []CStep {
 			return []CStep{g.transfer()}
 		}
 	case "C08":
+		if r.Chance(0.15) {
+			// one-to-many groups: well-formed multi-step traffic that reaches the notification paths
+			switch r.Intn(4) {
+			case 0:
+				return []CStep{CStep{Op: "gopen", Group: r.Intn(3), A: r.Intn(8), B: r.Intn(8), N: r.Intn(3), T: []int64{0, 2, 3}[r.Intn(3)], Ghost: r.Chance(0.2)}}
+			case 1, 2:
+				return []CStep{CStep{Op: "gchild", Group: r.Intn(3), N: r.Intn(4)}}
+			default:
+				return []CStep{CStep{Op: "grecv", Group: r.Intn(3), N: r.Intn(4), Kind: []string{"ok", "fail", "fail", "rollback"}[r.Intn(4)]}}
+			}
+		}
 		switch r.Weighted([]int{8, 8, 2, 4, 1, 1}) {
 		case 0:
 			return []CStep{g.call()}
